@@ -462,13 +462,18 @@ def check(doc):
             with watchdog(40):
                 (p2, m2), e2 = sut.tex2txt(body, lang='en', pack='*', defs=prefix)
                 (p3, m3), e3 = sut.tex2txt('\\LTinput{zzdefs.tex}\n' + body, lang='en', pack='*')
-        except Exception as e:
+                # reading the same definitions twice is the same as reading them once
+                (p4, m4), e4 = sut.tex2txt('\\LTinput{zzdefs.tex}\n\\LTinput{zzdefs.tex}\n' + body, lang='en', pack='*')
+        except (Exception, SystemExit) as e:
             raise Violation('exception:' + sut_frame(e), case, repr(e))
-        if e2 or e3:
-            raise Violation('diagnostic-on-well-formed-document', case, e2 + e3)
+        if e2 or e3 or e4:
+            raise Violation('diagnostic-on-well-formed-document', case, e2 + e3 + e4)
         a1 = [(ch, p - len(prefix)) for ch, p in zip(plain, pos) if not blank(ch)]
         a2 = [(ch, p) for ch, p in zip(p2, m2) if not blank(ch)]
         a3 = [(ch, p - len('\\LTinput{zzdefs.tex}\n')) for ch, p in zip(p3, m3) if not blank(ch)]
+        a4 = [(ch, p - 2 * len('\\LTinput{zzdefs.tex}\n')) for ch, p in zip(p4, m4) if not blank(ch)]
+        if a3 != a4:
+            raise Violation('definition-source-changes-result:LTinput-twice', case, {'once': p3, 'twice': p4})
         if a1 != a2 or a1 != a3:
             which = 'definitions-option' if a1 != a2 else 'LTinput-file'
             raise Violation('definition-source-changes-result:' + which, case,
